@@ -104,3 +104,17 @@ class WallLimit:
             signal.signal(signal.SIGALRM, self._old)
             self._old = None
         return False
+
+
+HANGS = {"n": 0, "active": False}
+"""non-terminations seen by this pool worker.  After three, executors stop executing further cases there and
+report them as 'not executed' (the violations already recorded stand; a worker must not burn a full
+wall-clock limit for each of thousands of remaining cases).  Never active outside pool workers."""
+
+
+def hang_seen():
+    HANGS["n"] += 1
+
+
+def too_many_hangs():
+    return HANGS["active"] and HANGS["n"] >= 3
